@@ -8,6 +8,38 @@ import os
 VERIF = os.path.dirname(os.path.dirname(os.path.abspath(__file__)))
 
 CHECKS = {
+    'C18': dict(
+        technique='decision-table extraction of every op_methods row and of '
+                  'match() by abstract interpretation (static) vs the '
+                  'documented table; grammar folded to a term: literal set '
+                  'and first-match prefix-shadow rule',
+        category='other', design_ref='DESIGN.md section 4, C18',
+        text='Exhaustive over the operator table: each of the 17 rows is '
+             'extracted as a symbolic table and compared with the documented '
+             'meaning on operand grids (equal/adjacent/differently spelled '
+             'numbers, string orderings, list members, all bracket and arity '
+             'combinations); the grammar\'s literals must equal the table '
+             'keys with no literal shadowed by an earlier proper prefix; '
+             'match() is extracted with injected parse results.',
+        note='pyparsing tokenisation is trusted (not decided); oracle = '
+             'doc_semantics() in sa/rules/c18.py written from the documented '
+             'grammar; ast.literal_eval/float are evaluated on grid strings '
+             'by the host stdlib.'),
+    'C20': dict(
+        technique='errno decision-table extraction by abstract '
+                  'interpretation with injected failures; def-use / event '
+                  'order of the extracted effect traces (static)',
+        category='other', design_ref='DESIGN.md section 4, C20',
+        text='Exhaustive over errno class x isdir x failure for ensure_tree, '
+             'delete_if_exists and the last_bytes fallback (every other '
+             'error must propagate as the same object); the checksum loop is '
+             'unrolled symbolically (0..3 chunks): every chunk read reaches '
+             'update() unmodified exactly once and the digest created by '
+             'hashlib.new(algorithm) is finalised; seek/tell/read order and '
+             'result tuple of last_bytes; makedirs->mkstemp->write->close '
+             'order of write_to_tempfile with and without a write failure.',
+        note='File-system and hashlib behaviour are trusted; short writes '
+             'of os.write are not decided.'),
     'C13': dict(
         technique='typestate table extraction by abstract interpretation '
                   '(static), compared with a reference table over an '
